@@ -3,6 +3,7 @@ package harness
 import (
 	"bytes"
 	"fmt"
+	"github.com/gorilla/websocket"
 	"io"
 	"net/http"
 	"strings"
@@ -27,6 +28,18 @@ func startSabotageBackend(w *World) *countingBackend {
 		}
 		http.Serve(l, http.HandlerFunc(func(rw http.ResponseWriter, r *http.Request) {
 			tok := r.Header.Get("X-Token")
+			if websocket.IsWebSocketUpgrade(r) {
+				up := websocket.Upgrader{CheckOrigin: func(*http.Request) bool { return true }}
+				if c, err := up.Upgrade(rw, r, nil); err == nil {
+					defer c.Close()
+					for {
+						if _, _, err := c.ReadMessage(); err != nil {
+							return
+						}
+					}
+				}
+				return
+			}
 			io.Copy(io.Discard, r.Body)
 			cb.mu.Lock()
 			cb.Seen[tok]++
@@ -118,17 +131,17 @@ func worldC07(w *World) {
 	nBad := t.Range(1, 5, "sabotaged")
 	kinds := []string{"reset-before-headers", "reset-mid-body", "close-mid-body", "garbage", "bad-header", "bad-chunk", "hang-then-close"}
 	if shim {
-		kinds = append(kinds, "shim-garbage-open", "shim-garbage-data", "shim-garbage-poll", "shim-unknown-close")
+		kinds = append(kinds, "shim-garbage-open", "shim-garbage-data", "shim-garbage-poll", "shim-unknown-close", "shim-odd-blob", "shim-odd-blob")
 	}
 	type creq struct {
-		tok     string
-		sab     string
-		at      time.Duration
-		lat     int
-		status  int
-		err     string
-		bodyOK  bool
-		done    bool
+		tok    string
+		sab    string
+		at     time.Duration
+		lat    int
+		status int
+		err    string
+		bodyOK bool
+		done   bool
 	}
 	var reqs []*creq
 	for i := 0; i < nHealthy; i++ {
@@ -161,6 +174,18 @@ func worldC07(w *World) {
 			req, _ = http.NewRequest("POST", "http://proxy:80/shim/data", strings.NewReader(`[{"id": 7, "msg": {"a":`))
 		case "shim-garbage-poll":
 			req, _ = http.NewRequest("POST", "http://proxy:80/shim/poll", bytes.NewReader([]byte{0xff, 0xfe, 0x00}))
+		case "shim-odd-blob":
+			// a live session, then well-formed JSON whose message has an unexpected type
+			sc := newShimClient(w, 1)
+			st, rep, _, err := sc.open("ws://example.test/ws-" + r.tok)
+			sid := "1"
+			if err == nil && st == 200 && rep != nil {
+				sid = rep.ID
+			}
+			odd := []string{`[123]`, `[null]`, `[{"a":1}]`, `[["x"]]`, `17`, `null`, `{"k":"v"}`, `["a","b"]`, `[]`}
+			body := `[{"id":"` + sid + `","msg":` + odd[len(r.tok+sid)%len(odd)] + `},{"id":"` + sid + `","msg":` + odd[(len(sid)+int(r.at/time.Millisecond))%len(odd)] + `}]`
+			req, _ = http.NewRequest("POST", "http://proxy:80/shim/data", strings.NewReader(body))
+			w.K.Count("fault.shim_odd_message")
 		case "shim-unknown-close":
 			req, _ = http.NewRequest("POST", "http://proxy:80/shim/close", strings.NewReader(`{"id":"424242"}`))
 		default:
